@@ -563,3 +563,161 @@ func ruleC01R8(c *Ctx) {
 	}
 	c.mustBeforeReturn("C01.R8", no, entryOf(no), sGOC, "a pipeline is created for every recovered queue id", "LocalCachedMap.GetOrCreate per id (guards: no ids, malformed id)", no.Pos(), malformed)
 }
+
+// R9: the final flush of a connection visits every local buffer that Accept can fill. The buffers Accept appends to
+// come from workerMap.GetOrCreate; the flush at Close must walk that same map (LocalCachedMap.Walk on the immutable
+// field workerMap), the closure it hands to Walk flushes the buffer it is given, and the map itself is append-only:
+// GetOrCreate returns only values that are in localMap, Walk calls the action for every entry of localMap, nothing
+// deletes from it. A flush driven by any other collection (a side list of "dirty" buffers, a cache of recent ones)
+// is not accepted: its completeness is an invariant over histories this analysis does not prove.
+func init() {
+	register("C01", "C01.R9", ruleC01R9)
+}
+
+func ruleC01R9(c *Ctx) {
+	const (
+		aWalk      = "util/localcachedmap.(*LocalCachedMap).Walk"
+		aOrcAccept = "orchestrate/obykeyset.(*byKeySetOrchestratorSink).Accept"
+		fWorkerMap = "orchestrate/obykeyset.byKeySetOrchestratorSink.workerMap"
+		fLocalMap  = "util/localcachedmap.LocalCachedMap.localMap"
+		aMakeLocal = "util/localcachedmap.(*GlobalCachedMap).MakeLocalMap"
+		aOrcNewSnk = "orchestrate/obykeyset.(*byKeySetOrchestrator).NewSink"
+	)
+	fromWorkerMap := func(v ssa.Value) bool { return mentions(v, isFieldAddrOf(fWorkerMap)) }
+	// (a) Accept: every Append goes to a buffer returned by workerMap.GetOrCreate
+	acc := c.P.Fn(aOrcAccept)
+	nApp := 0
+	for _, fn := range c.P.universe {
+		for _, s := range c.callsTo(fn, anchorPred(aCIBAppend)) {
+			nApp++
+			okSrc := false
+			if cl, ok := strip(recvOf(s)).(*ssa.Call); ok && cl.Common().StaticCallee() != nil && isAnchor(cl.Common().StaticCallee(), aGetOrCreate) {
+				okSrc = fromWorkerMap(cl.Common().Args[0])
+			}
+			c.check(okSrc && fn == acc, "C01.R9", fn, "records are appended to a buffer of workerMap", s.Pos(),
+				"the receiver of Append is the result of workerMap.GetOrCreate in Accept",
+				"Append is called on a buffer that does not come from workerMap.GetOrCreate in Accept: the final flush cannot be shown to visit it")
+		}
+	}
+	c.floor("C01.R9", "Append call sites", nApp, 1)
+	// (b) Close walks workerMap on every path
+	cl := c.P.Fn(aOrcClose)
+	isWalk := func(s ssa.CallInstruction) bool {
+		f := s.Common().StaticCallee()
+		return f != nil && isAnchor(f, aWalk) && fromWorkerMap(s.Common().Args[0])
+	}
+	sWalk := siteSumm(c.P, isWalk)
+	sWalk.AllowEmptyGuards = false
+	c.mustBeforeReturn("C01.R9", cl, entryOf(cl), sWalk, "Close walks the map that Accept fills", "LocalCachedMap.Walk on the field workerMap (not a side collection)", cl.Pos(), nil)
+	// (c) the closure handed to Walk flushes the buffer it is given; no other Flush receiver on the close path
+	reach := c.P.reachableFrom([]*ssa.Function{cl}, nil)
+	nFl := 0
+	for fn := range reach {
+		for _, s := range c.callsTo(fn, anchorPred(aCIBFlush)) {
+			nFl++
+			okRecv := false
+			if p, ok := strip(recvOf(s)).(*ssa.Parameter); ok && fn.Parent() != nil && len(fn.Params) == 2 && p == fn.Params[1] {
+				// the closure is an argument of a Walk call on workerMap
+				for _, site := range callsIn(fn.Parent()) {
+					if !isWalk(site) || len(site.Common().Args) < 2 {
+						continue
+					}
+					if mc, ok := strip(site.Common().Args[1]).(*ssa.MakeClosure); ok && mc.Fn == fn {
+						okRecv = true
+					}
+				}
+			}
+			c.check(okRecv, "C01.R9", fn, "the final flush flushes the entry Walk hands over", s.Pos(),
+				"Flush is called on the value parameter of the closure passed to workerMap.Walk",
+				"on the close path Flush is called on a buffer that is not the entry handed over by workerMap.Walk: buffers outside that collection are never flushed at Close")
+		}
+	}
+	c.floor("C01.R9", "Flush call sites on the close path", nFl, 1)
+	// (d) the map: Walk visits every entry, GetOrCreate returns entries of the map, nothing deletes, the fields are immutable
+	for _, fn := range c.P.Fns(aWalk) {
+		var rng *ssa.Range
+		eachInstr(fn, func(in ssa.Instruction) {
+			if r, ok := in.(*ssa.Range); ok && fieldOf(r.X) == fLocalMap {
+				rng = r
+			}
+		})
+		okWalk := false
+		pos := fn.Pos()
+		if rng != nil && len(fn.Params) == 2 {
+			for _, s := range callsIn(fn) {
+				if s.Common().Value != fn.Params[1] || len(s.Common().Args) != 2 {
+					continue
+				}
+				ex, ok := s.Common().Args[1].(*ssa.Extract)
+				if !ok || ex.Index != 2 {
+					continue
+				}
+				nx, ok := ex.Tuple.(*ssa.Next)
+				if !ok || nx.Iter != rng {
+					continue
+				}
+				pos = s.Pos()
+				// no way round the call within an iteration
+				lp := loopOf(fn, s.Block())
+				if lp == nil || lp.bodyEntry == nil {
+					continue
+				}
+				q := &PathQ{P: c.P, Barrier: func(in ssa.Instruction) bool { return in == s.(ssa.Instruction) }}
+				hit, _ := q.Reach(Point{lp.bodyEntry, 0}, func(in ssa.Instruction) bool { return in == ssa.Instruction(nx) || isReturn(in) })
+				okWalk = hit == nil
+			}
+		}
+		c.check(okWalk, "C01.R9", fn, "Walk calls the action for every entry of localMap", pos,
+			"range over the field localMap, the action is called with the entry in every iteration",
+			"Walk does not call the action for every entry of localMap")
+	}
+	for _, fn := range c.P.Fns(aGetOrCreate) {
+		for _, rv := range returnedValues(fn, 0) {
+			okRet := false
+			v := strip(rv.Val)
+			if ex, ok := v.(*ssa.Extract); ok && ex.Index == 0 {
+				if lk, ok := ex.Tuple.(*ssa.Lookup); ok && fieldOf(lk.X) == fLocalMap {
+					okRet = true
+				}
+			}
+			if !okRet {
+				eachInstr(fn, func(in ssa.Instruction) {
+					if mu, ok := in.(*ssa.MapUpdate); ok && fieldOf(mu.Map) == fLocalMap && strip(mu.Value) == v && dominatesInstr(mu, rv.At) {
+						okRet = true
+					}
+				})
+			}
+			c.check(okRet, "C01.R9", fn, "GetOrCreate returns an entry of localMap", rv.At.Pos(),
+				"the result was found in localMap or stored into it before the return",
+				"GetOrCreate can return a local buffer that is not in localMap: Walk, and with it the final flush, never visits it")
+		}
+	}
+	nMapOps := 0
+	for _, fn := range c.P.universe {
+		eachInstr(fn, func(in ssa.Instruction) {
+			switch x := in.(type) {
+			case *ssa.Call:
+				if isBuiltin(x, "delete") && fieldOf(x.Call.Args[0]) == fLocalMap {
+					c.bad("C01.R9", fn, "localMap is append-only", x.Pos(), "an entry is deleted from localMap: its buffer is no longer visited by the final flush")
+				}
+				if isBuiltin(x, "clear") && fieldOf(x.Call.Args[0]) == fLocalMap {
+					c.bad("C01.R9", fn, "localMap is append-only", x.Pos(), "localMap is cleared: its buffers are no longer visited by the final flush")
+				}
+			case *ssa.Store:
+				if fa, ok := strip(x.Addr).(*ssa.FieldAddr); ok {
+					switch fieldName(fa.X.Type(), fa.Field) {
+					case fLocalMap:
+						nMapOps++
+						c.check(isAnchor(fn, aMakeLocal), "C01.R9", fn, "localMap is set once, at construction", x.Pos(),
+							"stored in MakeLocalMap only", "localMap is replaced outside MakeLocalMap: buffers of the old map are never flushed")
+					case fWorkerMap:
+						nMapOps++
+						c.check(isAnchor(fn, aOrcNewSnk), "C01.R9", fn, "workerMap is set once, at construction", x.Pos(),
+							"stored in NewSink only", "the sink's workerMap is replaced outside NewSink: buffers of the old map are never flushed")
+					}
+				}
+			}
+		})
+	}
+	c.floor("C01.R9", "stores of localMap / workerMap", nMapOps, 2)
+}
